@@ -215,7 +215,7 @@ class CHECK(Check):
                 case["lam_kind"] = rng.choice(["unit", "random", "random"])
                 case["lam_pos"] = rng.randrange(64)
                 case["lam_pool"] = [str(F(rng.choice([0, 0, 1, 1, 2, 3, 5, 8]), rng.choice([1, 2, 4]))) for _ in range(16)]
-                case["lam_order"] = rng.choice(["index", "index", "reversed"])
+                case["lam_order"] = rng.choice(["index", "index", "reversed", "interleaved"])
                 if rng.random() < 0.5 or kind == "grid" or (kind == "fit" and case["algo"] == "grid"):
                     # GridSearch always uses the default objective ErrorRate()
                     case["fp"], case["fn"] = "1", "1"
@@ -300,6 +300,10 @@ class CHECK(Check):
         s = pd.Series([float(v) for v in lam], index=index)
         if case.get("lam_order") == "reversed":
             s = s.iloc[::-1]
+        elif case.get("lam_order") == "interleaved":
+            # the same labelled multipliers with "+" and "-" of one (event, group) next to each other (seeded C07c: a
+            # position-based pairing agrees with the label-based one in index order and in fully reversed order only)
+            s = s.loc[sorted(keys, key=lambda k: (str(k[1]), str(k[2]), str(k[0])))]
         return s, lam
 
     def impl(self, case):
